@@ -71,6 +71,8 @@ def base_env(tier, seed, outdir, scratch, cfg=None, fuzz=False):
     })
     for fl in (cfg or {}).get('extra_flavours', []):
         e['VERIF_BIN_' + fl] = binpath((cfg or {})['bin'], fl)
+    if (cfg or {}).get('nofile'):
+        e['VERIF_NOFILE'] = str(cfg['nofile'])   # descriptor budget of the harness processes (default 160, see harness/common/main.cpp)
     if (cfg or {}).get('case_timeout'):
         e['VERIF_CASE_TIMEOUT'] = str(cfg['case_timeout'])
     e.pop('RC_PARAMS', None)
